@@ -43,6 +43,11 @@ CLAIMED.update({
            "DESIGN.md section 5 C15", TIE_NOTE, "Coq proof over the entry-point model + exhaustive chunking / writer-kind differential runs + cmd binaries"),
  "C16": _c("proof", "Theorems C16_write_failure / C16_clean_prefix / C16_read_failure / C16_read_failure_buffer for every input, policy, write index k and sink behaviour after k.",
            "DESIGN.md section 5 C16", TIE_NOTE, "Coq proof over the write-sequence model + fault injection at every write index and reader offset"),
+ "C11": _c("proof", "Theorems C11_first_loop_partial / C11_noopener_loop_partial / C11_noopener_keeps_tokens / C11_no_duplicate / C11_tokens_kept / C11_elements: the per-loop post-conditions of the link-hardening block for every attribute list and option combination "
+           "(tokens really present as white-space separated tokens, flags, first target, no duplication, nothing removed). Partial: the composition through link_pass's flag plumbing is covered by the link correspondence (32 option combinations) and the output oracle.",
+           "DESIGN.md section 5 C11", TIE_NOTE, "Coq proofs by list induction over the model of the rel/target loops + differential correspondence on sanitizeAttrs + output oracle"),
+ "C12": _c("proof", "Theorems C12_crossorigin / C12_sandbox / C12_sandbox_names for every element, attribute list, policy and matcher interpretation; the element table and the SandboxValue->token map are regenerated from the source and re-checked by computation.",
+           "DESIGN.md section 5 C12", TIE_NOTE, "Coq proof by list induction over the model of sanitizeAttrs + generated-table instance facts + differential correspondence"),
 })
 
 NOT_YET = {}
